@@ -331,6 +331,9 @@ LAYOUTS = [
     [('C', 0, 'A1', 'RN'), ('O', 0, 'A2', 'RN'), ('H', 1, 'A1', 'S1'), ('C', 1, 'A4', 'S1')],
     [('S', 0, 'A1', 'S1'), ('S', 1, 'A2', 'S2'), ('C', 2, 'A1', 'UNK')],
     [('N', 0, 'A1', 'RB'), ('H', 0, 'ZZ', 'RB'), ('H', 1, 'A2', 'S2'), ('O', 1, 'A4', 'S2')],
+    # an unknown residue of two atoms that is not the first residue; an atom without a radius that is not the last atom
+    [('C', 0, 'A1', 'S1'), ('C', 1, 'Z1', 'UNK'), ('O', 1, 'Z2', 'UNK'), ('N', 2, 'A2', 'S2')],
+    [('X', 0, 'A1', 'RN'), ('C', 0, 'A2', 'RN'), ('O', 1, 'A1', 'S1'), ('N', 1, 'A4', 'S1')],
 ]
 
 
